@@ -21,6 +21,9 @@ def kinds(version: str, n: int) -> list:
         [n, 255, 3, 0, 11, ""],  # sketch name
         [n, 255, 3, 0, 12, ""],  # sketch version
         [n, 255, 4, 0, 0, ""],  # stream
+        [n, 255, 3, 0, 2, version],  # a version report that does not come from the gateway node
+        [n, 255, 3, 0, 6, ""],  # config request
+        [n, 255, 3, 0, 1, ""],  # time request
     ]
     if R.is2x(version):
         evs.append([n, 255, 3, 0, 22, "0"])  # heartbeat response
@@ -130,6 +133,11 @@ class Monitor:
             if out.kind == "yield":
                 self.app_parked.discard(n)
         want = R.enc(n, 255, 3, 0, 19, "")
+        # the statement is about messages that ARE rejected for this reason: whatever the reference registry thinks,
+        # a message the library rejects as "node / child not in the registry" starts or continues an episode
+        rejected_missing = out.kind == "raise" and type(out.exc).__name__ in ("MissingNodeError", "MissingChildError")
+        if exp[0] == "ok" and rejected_missing:
+            exp = ("rejected_as_missing", None)
         self.nontrivial = exp[0] != "ok"
         if not R.is2x(v):
             if att19:
